@@ -6,7 +6,7 @@ from common import *  # noqa
 import framework as fw
 import rtbuild
 
-MODULE = "LWV.Props.C02"
+MODULE = ["LWV.Props.C02", "LWV.Props.C02Full"]
 QOS = {8, 9, 10, 11, 12, 14, 15}
 
 
